@@ -56,3 +56,28 @@ contract(
              "ip_address=spec.identity.dotted(ip), state=state)", "result[1]['product_name'] == name2",
              "udp.sent == [(b'hello', ('255.255.255.255', 44818))]"],
     props=["C16"], max_paths=20000)
+# the public entry point: one broadcast per local IPv4 address (bound to it), every answer reported once per broadcast
+contract(
+    id="identity.discover", func="pycomm3.cip_driver.CIPDriver.discover", call="pycomm3.cip_driver.CIPDriver.discover()",
+    bind={"addresses": ["['192.168.1.5']", "[]"]},
+    params=dict(F, version=P.int(0, 65535), ip=P.bytes(len=4), state=P.int(0, 255), head=P.bytes(len=24)),
+    requires=["spec.encap.le(head, 8, 4) == 0"],
+    setup=["raw1 = head + b'\\x01\\x00' + " + _ITEM.format(a=ARGS), "udp = spec.env.UdpSocket([raw1])",
+           "pycomm3.cip_driver.socket = spec.env.SocketModule(udp, addresses)"],
+    ensures=["len(result) == 1", f"result[0] == dict(spec.identity.identity_view({ARGS}), encap_protocol_version=version, "
+             "ip_address=spec.identity.dotted(ip), state=state)",
+             "len(udp.sent) == 1 and udp.sent[0][1] == ('255.255.255.255', 44818)",
+             "spec.encap.try_parse_frame(udp.sent[0][0]) == (0x63, 0, bytes(8), ('empty',))",
+             "udp.bound == (('192.168.1.5', 0) if addresses else None)"],
+    props=["C16", "C11"], max_paths=20000)
+# CIPDriver.list_identity(path): its own session -- register, ListIdentity, unregister -- and the identity that came back
+contract(
+    id="identity.list_identity.classmethod", func="pycomm3.cip_driver.CIPDriver.list_identity", call="pycomm3.cip_driver.CIPDriver.list_identity('10.0.0.9')",
+    params=dict(F, version=P.int(0, 65535), ip=P.bytes(len=4), state=P.int(0, 255), session=P.int(1, 0xFFFFFFFF)),
+    setup=["item = " + _ITEM.format(a=ARGS),
+           "t = spec.env.Transport([spec.env.register_reply(session), b'\\x63\\x00' + spec.cip_codec.le_uint(2 + len(item), 2) + bytes(20) + b'\\x01\\x00' + item])",
+           "pycomm3.cip_driver.Socket = lambda timeout: t"],
+    ensures=[f"result == dict(spec.identity.identity_view({ARGS}), encap_protocol_version=version, ip_address=spec.identity.dotted(ip), state=state)",
+             "spec.env.frame_kinds(t.sent) == ['register', 'list-identity', 'unregister']",
+             "spec.encap.try_parse_frame(t.sent[1])[1] == session and spec.encap.try_parse_frame(t.sent[2])[1] == session"],
+    props=["C16", "C10"], max_paths=20000)
